@@ -46,6 +46,7 @@ def instance(name, tier, rng):
     cfgs = []
     maxrunout = 2
     keephist = True
+    counts = 3
     if name == 'kuhn':
         st = [street(False, [False], 0, False, 'Position', 1, 2)]
         subs = auto_subsets(rng, ['Ante posting', 'Bet collection', 'Hole dealing', 'Hole cards showing or mucking', 'Hand killing',
@@ -69,8 +70,10 @@ def instance(name, tier, rng):
     elif name == 'ministud':
         st = [street(False, [False, True], 0, False, 'Low card', 2, 2), street(True, [True], 0, False, 'High hand', 2, 2)]
         dk = [rng.sample(JQK, 12) for _ in range(2 if q else 4)]
+        some = ['Ante posting', 'Bet collection', 'Card burning', 'Hole dealing', 'Chips pushing', 'Chips pulling']
         for n, stacks in ([(2, (3, 4)), (3, (2, 5, 3))] if q else [(2, (3, 4)), (2, (1, 6)), (3, (2, 5, 3)), (3, (4, 4, 4))]):
-            for autos in ([], list(ALL_AUTOS)):
+            # three-handed with everything manual the tree of histories is out of reach: the mechanical steps are automated there
+            for autos in (([] if n == 2 else some), list(ALL_AUTOS)):
                 cfgs.append({'cfg': cfg(n, st, 'Fixed-limit', [1] * n, [0] * n, 1, stacks, ['Kuhn'], JQK, autos, True), 'decks': dk})
     elif name == 'minidraw':
         six = [36, 37, 40, 41, 44, 45, 38, 42]
@@ -80,6 +83,7 @@ def instance(name, tier, rng):
             for autos in ([], list(ALL_AUTOS)):
                 cfgs.append({'cfg': cfg(2, st, 'Fixed-limit', [0, 0], [1, 2], 0, stacks, ['Kuhn'], six, autos, True), 'decks': dk})
     elif name == 'runout':
+        counts = 0
         st = [street(False, [False, False], 0, False, 'Position', 2, -1), street(True, [], 3, False, 'Position', 2, -1),
               street(True, [], 1, False, 'Position', 2, -1)]
         dk = [rng.sample(range(52), 52)]
@@ -87,11 +91,13 @@ def instance(name, tier, rng):
             for tour in (False, True):
                 for autos in ([], ['Ante posting', 'Bet collection', 'Blind or straddle posting', 'Card burning', 'Hole dealing', 'Board dealing',
                                    'Hand killing', 'Chips pushing', 'Chips pulling']):
+                    if q and ((boards0 == 2 and not autos) or (boards0 == 2 and tour)):
+                        continue        # the manual double-board tree (80k states) and the tournament double board: thorough tier
                     cfgs.append({'cfg': cfg(2, st, 'No-limit', [0, 0], [1, 2], 0, (2, 3), ['StandardHigh'], range(52), autos, tour,
                                              boards0=boards0, werr=True), 'decks': dk})
     else:
         raise KeyError(name)
-    return {'cfgs': cfgs, 'maxrunout': maxrunout, 'keephist': keephist}
+    return {'cfgs': cfgs, 'maxrunout': maxrunout, 'keephist': keephist, 'counts': counts}
 
 
 _INV = re.compile(r'Invariant (\w+) is violated')
@@ -104,14 +110,14 @@ def run_instance(run: Run, name: str, inst: dict, *, emit=False, cfgfile='MC.cfg
     with open(path, 'w') as f:
         json.dump(inst, f)
     env = {'MCCFG': path, 'EMIT': '1' if emit else '0'}
-    rc, out, wall = tlc.run_tlc('MC.tla', cfgfile, env, os.path.join(d, 'meta'), workers=workers, timeout=timeout, heap='12g')
+    rc, out, wall = tlc.run_tlc('MC.tla', cfgfile, env, os.path.join(d, 'meta'), workers=workers, timeout=timeout, heap='12g', extra=['-continue'])
     with open(os.path.join(d, 'tlc.log'), 'w') as f:
         f.write(out)
     gen, dist = tlc.tlc_stats(out)
     run.add_tlc(dist, gen)
-    bad = _INV.findall(out)
+    bad = sorted(set(_INV.findall(out)))
     m2 = re.search(r'Action property (\w+) is violated|Temporal properties were violated', out)
-    completed = 'Model checking completed' in out
+    completed = 'Model checking completed' in out or 'Finished in' in out
     res = {'name': name, 'states': dist, 'transitions': gen, 'wall': round(wall, 1), 'configs': len(inst['cfgs']),
            'violated': bad + ([m2.group(0)] if m2 else []), 'completed': completed, 'dir': d, 'out': out}
     if not completed and not bad and not m2:
@@ -195,3 +201,58 @@ def replay_behaviour(tid, inst, beh):
         followed = (len(got) == len(beh['log']) and [int(x) for x in st.stacks] == list(beh['stacks']) and bool(st.status) == bool(beh['status']))
     rec['finished'] = not st.status
     return rec, followed
+
+
+MC_FOR = {
+    'C01': ['kuhn', 'miniflop'], 'C02': ['miniflop', 'runout'], 'C03': ['miniflop', 'ministud'], 'C06': ['minidraw', 'kuhn'],
+    'C07': ['kuhn', 'ministud', 'minidraw'], 'C08': ['kuhn', 'minidraw'], 'C09': ['kuhn', 'ministud'], 'C10': ['ministud', 'minidraw'],
+    'C12': ['miniflop', 'kuhn'], 'C13': ['ministud', 'miniflop'], 'C14': ['runout'], 'C15': ['kuhn', 'minidraw'],
+}
+# which model-level invariants / properties decide which property (C09, C12: see DESIGN - decided by the conformance part; the
+# instances still provide the behaviours that are replayed into the code)
+OWN = {
+    'C01': ['Inv_C01_', 'Prop_C01_'], 'C02': ['Inv_C02_'], 'C03': ['Inv_C03_'], 'C06': ['Inv_C06_'],
+    'C07': ['Inv_C07_', 'Prop_C07_', 'OnlyKnownFaults'], 'C08': ['Inv_C08_'], 'C09': ['OnlyKnownFaults'], 'C10': ['Inv_C10_'],
+    'C12': [], 'C13': ['Inv_C13_'], 'C14': ['Inv_C14_'], 'C15': ['Inv_C15_'],
+}
+
+
+def mc_part(run: Run, prop: str, replay_max=None):
+    """exhaustive instances for the property + replay of (a sample of) their terminal behaviours into the real code"""
+    from . import trace_checks as T
+    from . import pk
+    rng = random.Random(run.seed * 131 + sum(map(ord, prop)))
+    if replay_max is None:
+        replay_max = 500 if run.tier == 'quick' else 6000
+    for name in MC_FOR[prop]:
+        inst = instance(name, run.tier, random.Random(run.seed * 17 + len(name)))
+        r = run_instance(run, name, inst, emit=True, timeout=3000 if run.tier == 'quick' else 14000)
+        mine = [v for v in r['violated'] if any(v.startswith(p) or p in v for p in OWN[prop])]
+        for v in mine:
+            i = r['out'].find(v)
+            run.violation(f'model:{v}', f"TLC: {v} violated on the exhaustive instance '{name}' of the model; counterexample: "
+                          + r['out'][i:i + 1500], {'kind': 'mc', 'instance': name, 'violated': v, 'log': os.path.join(r['dir'], 'tlc.log')})
+        others = [v for v in r['violated'] if v not in mine]
+        behs = [b for b in behaviours(r['out'])]
+        run.count('mc_states:' + name, r['states'])
+        run.count('mc_terminal_behaviours:' + name, len(behs))
+        run.count('mc_behaviours_with_orphan_pot_fault:' + name, sum(1 for b in behs if b['fault']))
+        ok = [b for b in behs if not b['fault']]
+        sample = ok if len(ok) <= replay_max else rng.sample(ok, replay_max)
+        recs, lost = [], 0
+        for j, b in enumerate(sample):
+            rec, followed = replay_behaviour(j + 1, inst, b)
+            T.mechanisms(run, rec)
+            recs.append(rec)
+            if not followed:
+                lost += 1
+                if lost <= 3:
+                    run.violation('spec-behaviour-not-followed', f"a terminal behaviour of the model instance '{name}' is not a behaviour of the "
+                                  f"code: config {b['cid']} deck {b['did']} log {[(x['k'], x['p'], x['amt']) for x in b['log']]}",
+                                  {'kind': 'mc-replay', 'instance': name, 'behaviour': b, 'hand': T.short_hand(rec)})
+        run.part(f'{prop}_mc_{name}', configs=r['configs'], states=r['states'], transitions=r['transitions'], tlc_wall=r['wall'],
+                 violated_here=mine, violated_other_properties=others, terminal_behaviours=len(behs), replayed=len(recs), not_followed=lost,
+                 exhaustive_replay=len(sample) == len(ok))
+        if recs:
+            T.validate(run, recs, f'{prop}_mcreplay_{name}', prop)
+            run.sample({'instance': name, 'behaviour_replayed_into_the_code': T.short_hand(recs[0])}, limit=8)
